@@ -84,9 +84,9 @@ structure ElectionDetails where
 
 /-- `server.clientParams` -/
 structure ClientParams where
-  Persist : Bool
-  ExpectElecID : Bool
-  FIBAck : Bool
+  Persist : Bool := false
+  ExpectElecID : Bool := false
+  FIBAck : Bool := false
   deriving DecidableEq, Repr, Inhabited
 
 /-- `server.clientState` -/
